@@ -22,13 +22,15 @@ def build(case_spec, rid):
     return tasks.build_task(case_spec, rid)
 
 
-def make_item(seed, k):
+def make_item(seed, k, variant=None):
     rng = random.Random(f"c08/{seed}/{k}")
     names = universe.opt_names()
     opt = names[k % len(names)]
     stopkind = rng.choice(["max_cycles", "fitness_error", "early"])
     cfg, klass = universe.make_config(rng, opt, perturbed=rng.random() < 0.2, stop=False,
                                       max_cycles=rng.choice([2, 3, 5, 8]))
+    if variant is not None:
+        opt, cfg = variant[0], dict(variant[1], max_cycles=rng.choice([2, 3, 5]), fitness_error=None)
     if stopkind == "fitness_error":
         cfg["fitness_error"] = rng.choice([0.5, 0.9, 0.05])
     elif stopkind == "early":
@@ -106,6 +108,8 @@ def check(prop, tier, seed):
     rep = Report(prop, tier, seed)
     per_opt = 3 if tier == "quick" else 30
     items = [make_item(seed, k) for k in range(84 * per_opt)]
+    for rep_ in range(1 if tier == "quick" else 6):
+        items += [make_item(seed, 100000 + 1000 * rep_ + j, variant=v) for j, v in enumerate(universe.all_optional_variants())]
     res = runner.run_parallel("pvmon.props.c08", "work", items, {})
     opts_seen = set()
     armed_total = 0
